@@ -1043,6 +1043,12 @@ class experiment:
         # List of failed jobs
         self.failedJobs: Dict[str, Job] = {}
 
+        # A new run: the jobs registered by a previous run of this same object
+        # are not part of it (they would be answered "already submitted" and
+        # get no link in the job index)
+        self.scheduler.jobs.clear()
+        self.scheduler.waitingjobs.clear()
+
         # Exit mode when catching signals
         self.exitMode = False
 
